@@ -13,6 +13,8 @@ import Ymq.Lemmas.BerlekampMasseyMg
 import Ymq.Lemmas.WiedemannDetz
 import Ymq.Lemmas.WiedemannWitness
 import Ymq.Lemmas.WiedemannKrylov
+import Ymq.Lemmas.WiedemannPrimes
+import Ymq.Props.C06
 
 namespace Ymq.C19Wied
 open Ymq.BM Ymq.Wied Polynomial Matrix
@@ -242,5 +244,70 @@ theorem detz_early_termination_witness :
   rw [adv_valid]
   simp only [Option.bind_some, detz, adv_primes, Option.bind_eq_bind]
   exact adv_loop
+
+
+/-! ### `select_crtprimes` -/
+
+/-- soundness of the primality test used by `select_crtprimes` -/
+def IsprimeSound (isprime : ℕ → Option Bool) : Prop :=
+  ∀ q, q < 2 ^ 64 → isprime q = some true → q.Prime
+
+/-- `isprime64` (model of property C06) is sound under C06's three named literature hypotheses
+(minimal strong pseudoprimes ψ₂, ψ₅, and none below 2^64 to the twelve prime bases up to 37). -/
+theorem isprime64_isprimeSound
+    (Hψ2 : ∀ n, n % 2 = 1 → 1 < n → n < 1373653 → (∀ b ∈ [2, 3], Ymq.Pseudoprime.SPRP n b) → Nat.Prime n)
+    (Hψ5 : ∀ n, n % 2 = 1 → 1 < n → n < 2152302898747 →
+      (∀ b ∈ [2, 3, 5, 7, 11], Ymq.Pseudoprime.SPRP n b) → Nat.Prime n)
+    (Hψ12 : ∀ n, n % 2 = 1 → 1 < n → n < 2 ^ 64 →
+      (∀ b ∈ [2, 3, 5, 7, 11, 13, 17, 19, 23, 29, 31, 37], Ymq.Pseudoprime.SPRP n b) → Nat.Prime n) :
+    IsprimeSound Ymq.Mg64.isprime64 :=
+  fun q hq h => Ymq.C06.isprime64_sound Hψ2 Hψ5 Hψ12 q hq h
+
+/-- **`select_crtprimes`.** Whenever it returns, it returns exactly `max(size, 8)` moduli, in
+strictly decreasing order (hence distinct), each accepted by the primality test — prime when the
+test is sound — each with `q · norm < 2^63` (so `q < 2^63`), and pairwise coprime. It panics when
+`norm = 0` (zero matrix: recorded in `sparse-det-degenerate-sequence-panic`). -/
+theorem select_crtprimes_spec (isprime : ℕ → Option Bool) (hsound : IsprimeSound isprime) (m : Mat)
+    (out : List ℕ) (h : selectPrimes isprime m = some out) :
+    out.length = max m.length 8 ∧ out.Pairwise (· > ·) ∧ out.Pairwise Nat.Coprime ∧
+      ∀ q ∈ out, q.Prime ∧ q * norm m < 2 ^ 63 ∧ q < 2 ^ 63 := by
+  obtain ⟨h1, h2, h3⟩ := selectPrimes_spec isprime m out h
+  have hq : ∀ q ∈ out, q.Prime ∧ q * norm m < 2 ^ 63 ∧ q < 2 ^ 63 := by
+    intro q hq
+    obtain ⟨a, b, c⟩ := h3 q hq
+    have hlt : q < 2 ^ 63 := lt_of_le_of_lt (Nat.le_mul_of_pos_right q c) b
+    exact ⟨hsound q (lt_trans hlt (by norm_num)) a, b, hlt⟩
+  exact ⟨h1, h2, pairwise_coprime_of_decreasing out h2 (fun q hq' => (hq q hq').1), hq⟩
+
+theorem select_crtprimes_zero_norm (isprime : ℕ → Option Bool) (m : Mat) (h : norm m = 0) :
+    selectPrimes isprime m = none := by
+  simp [selectPrimes, h]
+
+/-- **`detz` from its lanes, with the moduli the code selects (partial, see
+`detz_of_detp_partial`).** Coprimality and the range of the moduli are no longer hypotheses: they
+follow from `select_crtprimes_spec`. -/
+theorem detz_of_detp_selected_partial (isprime : ℕ → Option Bool) (hsound : IsprimeSound isprime)
+    (inv : Ymq.IntMat.Inv) (hinv : Ymq.IntMat.InvSpec inv) (m : Mat) (d : Int)
+    (p0 p1 p2 p3 p4 p5 p6 p7 : ℕ) (rest : List ℕ) (r0 r1 r2 r3 r4 r5 r6 r7 : ℕ)
+    (hsel : selectPrimes isprime m = some (p0 :: p1 :: p2 :: p3 :: p4 :: p5 :: p6 :: p7 :: rest))
+    (hb1 : detp m [p0, p1, p2, p3] = some [r0, r1, r2, r3])
+    (hb2 : detp m [p4, p5, p6, p7] = some [r4, r5, r6, r7])
+    (h0 : (p0 : Int) ∣ (r0 : Int) - d) (h1 : (p1 : Int) ∣ (r1 : Int) - d)
+    (h2 : (p2 : Int) ∣ (r2 : Int) - d) (h3 : (p3 : Int) ∣ (r3 : Int) - d)
+    (h4 : (p4 : Int) ∣ (r4 : Int) - d) (h5 : (p5 : Int) ∣ (r5 : Int) - d)
+    (h6 : (p6 : Int) ∣ (r6 : Int) - d) (h7 : (p7 : Int) ∣ (r7 : Int) - d)
+    (hd1 : -((p0 * p1 * p2 * p3 : ℕ) : Int) < 2 * d)
+    (hd2 : 2 * d < ((p0 * p1 * p2 * p3 : ℕ) : Int)) :
+    detz isprime inv m = some d := by
+  obtain ⟨_, _, c3, c4⟩ := select_crtprimes_spec isprime hsound m _ hsel
+  have hsub : [p0, p1, p2, p3, p4, p5, p6, p7].Sublist
+      (p0 :: p1 :: p2 :: p3 :: p4 :: p5 :: p6 :: p7 :: rest) := by
+    have := List.take_sublist 8 (p0 :: p1 :: p2 :: p3 :: p4 :: p5 :: p6 :: p7 :: rest)
+    simpa using this
+  refine detz_of_detp_partial isprime inv hinv m d p0 p1 p2 p3 p4 p5 p6 p7 rest
+    r0 r1 r2 r3 r4 r5 r6 r7 hsel hb1 hb2 ?_ (c3.sublist hsub) h0 h1 h2 h3 h4 h5 h6 h7 hd1 hd2
+  intro q hq
+  obtain ⟨a, _, c⟩ := c4 q (hsub.subset hq)
+  exact ⟨a.one_lt, lt_trans c (by unfold Ymq.IntMat.U64; norm_num)⟩
 
 end Ymq.C19Wied
